@@ -104,6 +104,8 @@ str_net_to_ss(const char *buf, size_t buf_size, sockaddr_storage_p addr,
 			preflen = 128;
 		}
 		break;
+	default: /* AF_UNIX ("./24", ".0.0.0/8"): not a network. */
+		return (EINVAL);
 	}
 	if (NULL != preflen_ret) {
 		(*preflen_ret) = preflen;
